@@ -936,9 +936,11 @@ func ruleLoopEvery(c *Ctx) {
 				continue
 			}
 			loops++
-			seenFn[fn]++
-			key := fn + "#" + itoa(int64(seenFn[fn]))
-			if seenFn[fn] <= loopEveryReviewed[fn] {
+			// (a reviewed loop moved into an unexported function that only the reviewed one calls is the same loop)
+			rfn := ownerOrSelf(fn)
+			seenFn[rfn]++
+			key := fn + "#" + itoa(int64(seenFn[rfn]))
+			if seenFn[rfn] <= loopEveryReviewed[rfn] {
 				c.ok(key, l.Pos(), "reviewed: acts on elements (%s) and leaves early as the spec does", strings.Join(uniqStrings(effects), ", "))
 			} else {
 				c.bad(key, li.breaks[0].Pos(), "this loop acts on the elements it passes (%s) and can `break`: the elements after the break are left undone, and no such loop is recorded for %s (where the spec skips an element the loop must `continue`)", strings.Join(uniqStrings(effects), ", "), fn)
